@@ -355,9 +355,15 @@ def main(ck):
             lines = ['class Kz%dz:' % i] + lines
             path, is_method = 'Kz%dz.%s' % (i, name), True
         elif scope == 'nested-class':
-            lines, info = siggen.gen_def(rng, eg, name, indent='        ', first='self', depth=depth)
-            lines = ['class Kz%dz:' % i, '    class Inner:'] + lines
-            path, is_method = 'Kz%dz.Inner.%s' % (i, name), True
+            if rng.random() < .5:
+                lines, info = siggen.gen_def(rng, eg, name, indent='        ', first='self', depth=depth)
+                lines = ['class Kz%dz:' % i, '    class Inner:'] + lines
+                path, is_method = 'Kz%dz.Inner.%s' % (i, name), True
+            else:
+                # a method that follows a nested class body (the qualified-name stack must have been restored)
+                lines, info = siggen.gen_def(rng, eg, name, indent='    ', first='self', depth=depth)
+                lines = ['class Kz%dz:' % i, '    class Inner:', '        class Deeper:', '            x = 1', '        y = 2'] + lines
+                path, is_method = 'Kz%dz.%s' % (i, name), True
         elif scope == 'closure':
             lines, info = siggen.gen_def(rng, eg, 'inner_%s' % name, indent='    ', depth=depth)
             lines = ['def mk_%s():' % name] + lines + ['    return inner_%s' % name, '%s = mk_%s()' % (name, name)]
@@ -385,13 +391,45 @@ def main(ck):
             meta.append((cell, name, chunk, path, d))
     tres, _ = tree.translate(jobs, nworkers=min(core.NCPU, ck.pick(5, 10)), timeout=ck.pick(1800, 3600))
     skipped = 0
+    skipped_functions = 0
     okm = []
+    retry = []
     for m, r in zip(meta, tres):
         if r['ok']:
             okm.append(m + (r['c'],))
         else:
-            skipped += 1
-            ck.note('translate failure %s/%s: %s' % (m[0], m[1], ((r.get('exc') or '') + (r.get('errors') or ''))[-800:]))
+            retry.append(m)
+            ck.note('translate failure %s/%s (module is split and retried): %s' % (
+                m[0], m[1], ((r.get('exc') or '') + (r.get('errors') or ''))[-500:]))
+    # a module that the compiler rejects is split into eighths so that one bad function does not hide the others
+    for rnd in range(2):
+        if not retry:
+            break
+        jobs2, meta2 = [], []
+        for cell, name, chunk, path, d in retry:
+            parts = 8 if rnd == 0 else 4
+            step = max(1, (len(chunk) + parts - 1) // parts)
+            for pi in range(0, len(chunk), step):
+                sub = chunk[pi:pi + step]
+                n2 = '%s_%d%s' % (name, pi // step, 'ab'[rnd])
+                p2 = os.path.join(d, n2 + '.py')
+                with open(p2, 'w', encoding='utf-8') as fh:
+                    fh.write(HEADER + '\n'.join(f['src'] for f in sub))
+                jobs2.append({'src': p2, 'directives': CELLS[cell]})
+                meta2.append((cell, n2, sub, p2, d))
+        tres2, _ = tree.translate(jobs2, nworkers=min(core.NCPU, ck.pick(5, 10)), timeout=ck.pick(1800, 3600))
+        retry = []
+        for m, r in zip(meta2, tres2):
+            if r['ok']:
+                okm.append(m + (r['c'],))
+            elif rnd == 0 and len(m[2]) > 4:
+                retry.append(m)
+            else:
+                skipped_functions += len(m[2])
+    for m in retry:
+        skipped_functions += len(m[2])
+    ck.cov['functions_skipped_because_compiler_rejects_them'] = skipped_functions
+    ck.inconclusive_if(skipped_functions > 0.1 * sum(len(m[2]) for m in meta), '%d functions could not be compiled' % skipped_functions)
     bres = tree.cbuild_many([m[5] for m in okm], timeout=ck.pick(1800, 3600))
     total_n = total_distinct = 0
     hist = {}
@@ -434,6 +472,8 @@ def main(ck):
             for aspect in sorted(set(e) | set(g)):
                 if e.get(aspect) == g.get(aspect):
                     continue
+                if aspect in ('defaults', 'kwdefaults') and e.get('signature') != g.get('signature'):
+                    continue        # same cause as the differing signature rows
                 detail = ''
                 what = '%s: CPython %s, compiled %s' % (aspect, e.get(aspect), g.get(aspect))
                 if aspect in ('signature', 'embedded'):
